@@ -16,6 +16,7 @@ would be an access outside the adaptor's buffer.
 import DmlcModel.Streams.Mem
 import DmlcModel.Streams.OStream
 import DmlcModel.Streams.IStream
+import DmlcModel.Streams.IStreamSet
 
 namespace DmlcModel.Props.C19
 open DmlcModel DmlcModel.Streams
@@ -198,9 +199,7 @@ theorem C19_ostream (bufSize : Nat) (hb : bufSize < 2 ^ 31) (sink : Arr) (ops : 
   obtain ⟨hinv, hpend, hcnt⟩ := create_inv bufSize hb
   obtain ⟨s1, cs1, hr1, heff1⟩ := orun_eff ops { ob := OBuf.create bufSize, sink := sink } hinv
   obtain ⟨ob2, cs2, ha, heff2, hsync⟩ := apply_eff s1.ob heff1.inv fin
-  have hstep : ∃ s2 : OSt, s1.step fin = some (s2, cs2) ∧ s2.ob = ob2 := by
-    unfold OSt.step; rw [ha]; exact ⟨_, rfl, rfl⟩
-  obtain ⟨s2, hs2, hob⟩ := hstep
+  obtain ⟨s2, hs2, hob⟩ := OSt.step_of_apply s1 fin ob2 cs2 ha
   have hfi : inserted [fin] = [] := by cases fin <;> simp [OOp.syncs] at hfin <;> rfl
   have htot := heff1.trans heff2
   refine ⟨s2, cs1 ++ cs2, ?_, ?_, ?_⟩
@@ -277,5 +276,84 @@ theorem C19_istream (bufSize : Nat) (hb : bufSize < 2 ^ 64) (data : Bytes) (hd :
   refine ⟨s, hr, hA, ?_, hle, ?_⟩
   · rw [hcount]; exact u64_of_lt (by omega)
   · simp only [ISt.ahead, List.length_append, List.length_drop, hdat]; omega
+
+/-! ## set_stream -/
+
+/-- `ostream::set_stream(stream j)`: the bytes pending in the put area go to the stream attached SO FAR
+(nothing is lost, nothing reaches the new stream early), the put area is empty afterwards,
+`bytes_written()` counts them, and stream `j` (if the caller has one) is the attached stream from now
+on, untouched.  Histories containing `set_stream` are covered by `C19_ostream` /
+`C19_ostream_any_history` (the operation alphabet `OOp` includes it). -/
+theorem C19_ostream_set_stream (s : OSt) (h : OInv s.ob) (j : Nat) :
+    ∃ s', s.step (.setStream j) = some (s', [s.ob.pending]) ∧ s'.ob.pending = [] ∧
+      s'.ob.count = (s.ob.count + s.ob.pending.length) % 2 ^ 64 ∧
+      (s'.parked.set s'.idx s'.sink)[s.idx]? = (s.parked.set s.idx (sinkWrite s.sink s.ob.pending))[s.idx]? ∧
+      (∀ a, (s.parked.set s.idx (sinkWrite s.sink s.ob.pending))[j]? = some a → s'.idx = j ∧ s'.sink = a) := by
+  obtain ⟨ob1, h1, heff, hp⟩ := setStream_eff s.ob h
+  have hcnt : ob1.count = (s.ob.count + s.ob.pending.length) % 2 ^ 64 := by
+    have := heff.count; simpa [u64] using this
+  have hpend : ob1.pending = [] := by simp [OBuf.pending, hp]
+  rw [OSt.step_setStream s j ob1 [s.ob.pending] h1]
+  simp only [List.foldl_cons, List.foldl_nil]
+  cases hl : (s.parked.set s.idx (sinkWrite s.sink s.ob.pending))[j]? with
+  | none =>
+    refine ⟨_, rfl, hpend, hcnt, ?_, fun a ha => by simp at ha⟩
+    simp
+  | some a =>
+    refine ⟨_, rfl, hpend, hcnt, ?_, fun b hb => ⟨rfl, by simpa using hb⟩⟩
+    simp only
+    by_cases hj : j = s.idx
+    · subst hj
+      rw [hl]
+      have : s.idx < (s.parked.set s.idx (sinkWrite s.sink s.ob.pending)).length := by
+        rcases List.getElem?_eq_some_iff.mp hl with ⟨hlt, _⟩; exact hlt
+      simp only [List.length_set] at this
+      simp [this]
+    · rw [List.getElem?_set_ne (fun h => hj h)]
+
+/-- `istream::set_stream(stream a)`: whatever was buffered from the old stream is dropped, everything ahead
+is exactly what `a` provides from its cursor on, `bytes_read()` keeps counting -/
+theorem C19_istream_attach (s : ISt) (h : IInv s) (a : Arr) :
+    IInv { ib := s.ib.setStream, src := a } ∧
+    ISt.ahead { ib := s.ib.setStream, src := a } = a.data.drop a.cur ∧
+    (IBuf.setStream s.ib).count = s.ib.count :=
+  attach_inv s h a
+
+theorem created_rel (bufSize : Nat) (hb : bufSize < 2 ^ 64) (a : Arr) (streams : List Arr) (idx : Nat)
+    (hidx : idx < streams.length) :
+    FRel streams.length
+      { st := { ib := IBuf.create bufSize, src := a }, idx := idx, parked := streams, eofbit := false, failbit := false }
+      { rest := a.data.drop a.cur, eofbit := false, failbit := false } := by
+  obtain ⟨hinv, _, _⟩ := create_iinv bufSize hb []
+  have hg : (IBuf.create bufSize).gptr = 0 ∧ (IBuf.create bufSize).egptr = 0 := by
+    unfold IBuf.create; exact ⟨rfl, rfl⟩
+  refine ⟨⟨hinv.len, hinv.pos, hinv.small, hinv.ge, hinv.ee, hinv.cnt⟩, ?_, rfl, rfl, rfl, hidx⟩
+  simp [ISt.ahead, ISt.buffered, hg.1, hg.2, peek]
+
+/-- For every buffer size and EVERY history on a `dmlc::istream` -- extractions through the stream
+(with its state bits) or through its rdbuf, `clear`, `set_stream` to any of the caller's streams, seeks
+of any stream at any time -- no access outside the buffer happens. -/
+theorem C19_istream_set_stream_any_history (bufSize : Nat) (hb : bufSize < 2 ^ 64) (a : Arr) (streams : List Arr)
+    (idx : Nat) (ops : List FOp) :
+    ∃ s outs pr, frun { st := { ib := IBuf.create bufSize, src := a }, idx := idx, parked := streams,
+                        eofbit := false, failbit := false } ops = some (s, outs, pr) := by
+  obtain ⟨hinv, _, _⟩ := create_iinv bufSize hb []
+  obtain ⟨s, outs, pr, h, _⟩ := frun_total ops
+    { st := { ib := IBuf.create bufSize, src := a }, idx := idx, parked := streams, eofbit := false, failbit := false }
+    ⟨hinv.len, hinv.pos, hinv.small, hinv.ge, hinv.ee, hinv.cnt⟩
+  exact ⟨s, outs, pr, h⟩
+
+/-- **C19, istream with set_stream.** For every buffer size and every history of extractions (through the
+`std::istream` members or the rdbuf), `clear` and `set_stream` (to another stream, or to the same stream
+after it was repositioned while detached; any number of switches; before, at or after EOF), the bytes
+delivered are the concatenation of what each attached stream provides from the moment it is attached
+(`pr`: its bytes from its cursor on), consumed in order; `set_stream` clears `eofbit`/`failbit`, so
+extraction resumes on the new stream; a stream that is not `good()` delivers nothing. -/
+theorem C19_istream_set_stream (bufSize : Nat) (hb : bufSize < 2 ^ 64) (a : Arr) (streams : List Arr) (idx : Nat)
+    (hidx : idx < streams.length) (ops : List FOp) (hok : okHistory streams.length idx ops) :
+    ∃ s pr, frun { st := { ib := IBuf.create bufSize, src := a }, idx := idx, parked := streams,
+                   eofbit := false, failbit := false } ops =
+      some (s, fspecRun { rest := a.data.drop a.cur, eofbit := false, failbit := false } pr ops, pr) :=
+  frun_spec streams.length ops _ _ (created_rel bufSize hb a streams idx hidx) hok
 
 end DmlcModel.Props.C19
